@@ -102,9 +102,10 @@ def Table.set (t : Table) (r : ReqId) (e : Entry) : Table := (r, e) :: t.del r
 /-- read the entry of `r`, let `f` decide its new value (`none` = deleted) and an output -/
 def applyAt {α : Type} (t : Table) (r : ReqId) (f : Option Entry → Option Entry × α) : Table × α :=
   let res := f (t.get r)
-  (match res.1 with
-   | some e => t.set r e
-   | none => t.del r, res.2)
+  (if res.1 = t.get r then t          -- nothing written
+   else match res.1 with
+     | some e => t.set r e
+     | none => t.del r, res.2)
 
 /-! ### terminateRequest / cancelOnError on one entry -/
 
@@ -118,11 +119,16 @@ def terminateEvs (r : ReqId) (e : Entry) : List Ev :=
    | none => [])
   ++ [Ev.unprotect e.peer r, Ev.closed r] ++ replicateEv e.waiters (Ev.cancelRet r true)
 
+/-- `if ipr.terminalError == nil { ipr.terminalError = terminalError }` -/
+def recordErr (cd : ReqMgr.CancelDesc) (e : Entry) (err : Err) : Entry :=
+  if cd.keepFirstError && e.terminalError.isSome then e else { e with terminalError := some err }
+
 def cancelOnErrorE (cd : ReqMgr.CancelDesc) (r : ReqId) (e : Entry) (err : Err) : Option Entry × List Ev :=
-  let e1 := if cd.keepFirstError && e.terminalError.isSome then e else { e with terminalError := some err }
-  if cd.terminateUnlessRunning && e1.state != .running then (none, terminateEvs r e1)
-  else (some { e1 with ctxCancelled := e1.ctxCancelled || cd.runningCancelsCtx,
-                       online := e1.online && !cd.runningSetsOffline }, [])
+  if cd.terminateUnlessRunning && (recordErr cd e err).state != .running then
+    (none, terminateEvs r (recordErr cd e err))
+  else (some { recordErr cd e err with
+                 ctxCancelled := (recordErr cd e err).ctxCancelled || cd.runningCancelsCtx,
+                 online := (recordErr cd e err).online && !cd.runningSetsOffline }, [])
 
 def targetPeer (t : Target) (sender : Peer) (e : Option Entry) : Option Peer :=
   match t with
